@@ -71,7 +71,7 @@ CLAIMED = {
 def short(cmd):
     return subprocess.run(cmd, shell=True, capture_output=True, text=True).stdout.strip()
 
-hook_commits = short("git -C /repo log --format=%H --grep='^verif hooks' ").split()
+hook_commits = short("git -C /repo log --format=%H --grep='^verif hook' ").split()
 
 checks = []
 for i in ids:
